@@ -200,6 +200,29 @@ func (x *Exec) loadTyped(st *State, t types.Type, r *Term) *Term {
 func (x *Exec) axiomIfClosed(t *Term) {
 	if !t.Bound {
 		x.axiom(t)
+		return
+	}
+	// a load under a quantifier: the type invariant holds of every cell, so it
+	// is stated for all values of the bound variables
+	var vars []*Term
+	seen := map[*Term]bool{}
+	var walk func(u *Term)
+	walk = func(u *Term) {
+		if seen[u] || !u.Bound {
+			return
+		}
+		seen[u] = true
+		if len(u.Args) == 0 && u.QVars == nil {
+			vars = append(vars, u)
+			return
+		}
+		for _, a := range u.Args {
+			walk(a)
+		}
+	}
+	walk(t)
+	if len(vars) > 0 && !t.isTrue() {
+		x.axiom(Forall(vars, t))
 	}
 }
 
